@@ -311,7 +311,10 @@ class RxScn(Scenario):
             if disposed and st.get('pending_at_dispose'):
                 sid = req[0].sid if req else None
                 cancels = [ev for ev in log if ev[0] == 'tx' and ev[1] == 'c0' and ev[2].type == R.CANCEL]
-                completed_on_wire = any(ev[0] == 'rx' and ev[1] == 'c0' and ev[2].sid == sid and ((ev[2].type == R.PAYLOAD and ev[2].complete) or ev[2].type == R.ERROR) for ev in log[:st['disposed_at']])
+                # a terminal frame fed to the client before the loop next ran after dispose() races the disposal: the stream may
+                # already be over when the cancellation is acted upon
+                q_after = next((i for i in range(st['disposed_at'], len(log)) if log[i][0] == 'q'), len(log))
+                completed_on_wire = any(ev[0] == 'rx' and ev[1] == 'c0' and ev[2].sid == sid and ((ev[2].type == R.PAYLOAD and ev[2].complete) or ev[2].type == R.ERROR) for ev in log[:q_after])
                 if sid is not None and not completed_on_wire and len(cancels) != 1:
                     out.append(('C20.dispose-cancels', 'C20.dispose-cancels | %s | cancels=%d' % (tag, len(cancels)), 'dispose() of a pending %s produced %d CANCEL frames' % (self.kind, len(cancels))))
         elif self.kind == 'rr' and not disposed:
@@ -517,7 +520,7 @@ def make_units(tier):
 
 def scenario_of(u):
     return RxScn(u['api'], u['kind'], u['k'], u['limit'], u['err'], u['source'], u['dispose'], u['up'], u['flavour'], u['empty'],
-                 alts=('all',), modes=('Q', '1') if u['dispose'] else (('Q', '0') if u['kind'] == 'stream-core' else ('Q',)), ending=u.get('ending', 'flag'))
+                 alts=('all',), modes=('Q', '1', '0') if u['dispose'] else (('Q', '0') if u['kind'] == 'stream-core' else ('Q',)), ending=u.get('ending', 'flag'))
 
 
 def run_unit(unit, part):
